@@ -114,7 +114,7 @@ def c10(t):
     out.extra["source_digest"] = C.repo_digest(LIFT_REAL)
     out.assumptions = [SHIM_NOTE,
         "block heights passed to mintable() are <= u32::MAX (ord's Height is u32); RuneEntry.block, offsets and absolute heights are any u64",
-        "only the mint-terms predicate is decided; the clauses living in RuneUpdater::mint / index_runes (mint count update, cenotaph mint still counts, unetched rune has no effect) are NOT covered: rune_updater.rs is HashMap/redb-table code out of reach of the engines here"]
+        "Kani part: the mint-terms predicate RuneEntry::mintable/start/end"]
     if not shim_validation(out):
         return out.finish()
     f = "h_entry.rs"
@@ -123,6 +123,12 @@ def c10(t):
         dict(h="c10_start_end_are_later_and_earlier", file=f, bounds="every Terms, any block", claim="start() = later of absolute/relative start, end() = earlier of absolute/relative end, relative = block+offset saturating at u64::MAX"),
     ]
     kprop.decide(out, "liftk", K.gen_lift, "t-liftk", specs, jobs=2, harness_timeout=900)
+    out.functions += ["ord::index::updater::rune_updater::RuneUpdater::mint (text extracted at run time)", "RuneUpdater::index_runes (ordering of mint vs. etching, via the C09 self-mint scenario)"]
+    out.assumptions += [E2_NOTE,
+        "counter clause: the real RuneUpdater::mint runs over a table stub that returns an arbitrary stored entry (every field symbolic) or no entry; RuneEntry::load/store are the real codecs; Txid byte conversions are opaque wrappers",
+        "ordering clause ('a mint of a rune etched in the same transaction has no effect'): the C09 obligation c09_alloc_..._mintself_etch, where the mint stub pays out only if create_rune_entry has already run",
+        "not covered: 'etched later in the same block' across transactions (block-level loop in updater.rs, redb)"]
+    run_e2(out, "C10", t)
     return out.finish()
 
 
